@@ -235,4 +235,113 @@ def checkBasis (fl : K → Int) (b : Box K) (setting : String) (atoms : List (At
 
 end
 
+/-! ### round 3: names of the per-atom properties, periodicity flags, the object behind the call -/
+
+/-- names of the per-atom properties of the system `supersize` returns, in order: a fresh `Atoms(natoms=…)` holds
+    `atype` and `pos`; the copy loop `for key in self.atoms_prop(): if key == 'pos': continue; …` then writes every key
+    of the input other than `pos` (over the existing column for `atype`, appended in the input's order otherwise);
+    `pos` is written last, over the existing column.  `rotate` slices that system (`Atoms.__getitem__` keeps the keys
+    in order); its identity shortcut deep-copies the input (`atype`, `pos`, then the others in order). -/
+def copiedKeys (keys : List String) : List String :=
+  (keys.filter (fun k => k != "pos")).foldl (fun acc k => if acc.contains k then acc else acc ++ [k]) ["atype", "pos"]
+
+/-- periodicity flags. -/
+structure Pbc where
+  a : Bool
+  b : Bool
+  c : Bool
+deriving Repr, BEq, DecidableEq
+
+/-- flags of the system `rotate` returns: the general path builds a new `System` (default: fully periodic); the
+    identity shortcut copies the input with its flags and then declares the copy fully periodic (repo fix b34107f) -
+    `normalize` must wrap the atoms into the cell, not stretch the cell around them. -/
+def rotatePbc (U : M3 Int) (pbc : Pbc) : Pbc :=
+  if U = M3.one then { pbc with a := true, b := true, c := true } else ⟨true, true, true⟩
+
+/-- a `Box` object: the visible cell and the cached reciprocal vectors (`None` until first asked for; the `vects`
+    setter drops the cache). -/
+structure BoxObj (K : Type) where
+  vects : M3 K
+  origin : V3 K
+  cache : Option (M3 K)
+
+/-- a `System` object as far as `supersize` / `rotate` read it. -/
+structure SysObj (K : Type) where
+  box : BoxObj K
+  atoms : List (Atom K)
+  pbc : Pbc
+
+section
+variable {K : Type} [Add K] [Sub K] [Mul K] [Div K] [IntCast K]
+
+def BoxObj.visible (o : BoxObj K) : Box K := ⟨o.vects, o.origin⟩
+
+/-- `Box.reciprocal_vects`: the cached value if there is one, else computed from the cell and stored. -/
+def BoxObj.recipC (o : BoxObj K) : M3 K × BoxObj K :=
+  match o.cache with
+  | some r => (r, o)
+  | none => let r := o.visible.recip; (r, { o with cache := some r })
+
+/-- `position_cartesian_to_relative` on the object (reads through the cache, may fill it). -/
+def BoxObj.cartToRelC (o : BoxObj K) (p : V3 K) : V3 K × BoxObj K :=
+  let (r, o') := o.recipC
+  (M3.mulVec r (p - o.origin), o')
+
+/-- the `vects` setter: new cell, cache dropped.  (`origin` setter: no cache involved.) -/
+def BoxObj.setVects (o : BoxObj K) (v : M3 K) : BoxObj K := { o with vects := v, cache := none }
+def BoxObj.setOrigin (o : BoxObj K) (p : V3 K) : BoxObj K := { o with origin := p }
+
+/-- what the generated histories do to the one object before `supersize` / `rotate` is called on it. -/
+inductive HOp (K : Type) where
+  | read                                 -- atoms_prop('pos', scale=True) / box.reciprocal_vects: fills the cache
+  | setBox (v : M3 K) (o : V3 K) (scale : Bool)   -- box_set(vects=, origin=, scale=): relative (true) / Cartesian positions held
+  | setVects (v : M3 K)                  -- box.vects = v (Cartesian positions held)
+  | setOrigin (o : V3 K)                 -- box.origin = o
+  | rewrite                              -- scaled positions read and written back
+  | setPbc (p : Pbc)
+
+/-- scaled positions of all atoms, read through the cache. -/
+def SysObj.sposC (s : SysObj K) : List (V3 K) × SysObj K :=
+  let (r, b') := s.box.recipC
+  (s.atoms.map fun a => M3.mulVec r (a.pos - s.box.origin), { s with box := b' })
+
+/-- positions set from scaled ones: `pos = s·vects + origin`. -/
+def SysObj.setSpos (s : SysObj K) (sp : List (V3 K)) : SysObj K :=
+  { s with atoms := List.zipWith (fun a q => { a with pos := s.box.visible.relToCart q }) s.atoms sp }
+
+def SysObj.step (s : SysObj K) : HOp K → SysObj K
+  | .read => s.sposC.2
+  | .setBox v o true =>
+    let (sp, s1) := s.sposC
+    ({ s1 with box := (s1.box.setVects v).setOrigin o }).setSpos sp
+  | .setBox v o false => { s with box := (s.box.setVects v).setOrigin o }
+  | .setVects v => { s with box := s.box.setVects v }
+  | .setOrigin o => { s with box := s.box.setOrigin o }
+  | .rewrite => let (sp, s1) := s.sposC; s1.setSpos sp
+  | .setPbc p => { s with pbc := p }
+
+def SysObj.run (s : SysObj K) (ops : List (HOp K)) : SysObj K := ops.foldl SysObj.step s
+
+/-- scaled position of replica `(r0,r1,r2)` in the multiplied cell from the scaled position `q` in the original one. -/
+def replicaRel (sa sb sc : Size) (q : V3 K) (r0 r1 r2 : Nat) : V3 K :=
+  ⟨q.x / (sa.mult : K) + ((r0 : Int) : K) * (((1 : Int) : K) / (sa.mult : K)),
+   q.y / (sb.mult : K) + ((r1 : Int) : K) * (((1 : Int) : K) / (sb.mult : K)),
+   q.z / (sc.mult : K) + ((r2 : Int) : K) * (((1 : Int) : K) / (sc.mult : K))⟩
+
+/-- `supersize` on the object: the scaled positions are read through the cache, everything else from the visible
+    state.  (Replica `r` of atom `a` sits at `(spos a / m + r / m)` of the multiplied cell.) -/
+def SysObj.supersizeC (s : SysObj K) (sa sb sc : Size) : Box K × List (Atom K) :=
+  let (sp, s1) := s.sposC
+  let nb := superBox s1.box.visible sa sb sc
+  (nb,
+   (List.range sc.mult.toNat).flatMap fun r2 =>
+   (List.range sb.mult.toNat).flatMap fun r1 =>
+   (List.range sa.mult.toNat).flatMap fun r0 =>
+     List.zipWith (fun a q => { a with pos := nb.relToCart (replicaRel sa sb sc q r0 r1 r2) }) s1.atoms sp)
+
+/-- the cache, if filled, holds the reciprocal vectors of the cell the object shows. -/
+def BoxObj.Coherent (o : BoxObj K) : Prop := ∀ r, o.cache = some r → r = o.visible.recip
+
+end
+
 end Atomman.C04
